@@ -1,5 +1,6 @@
 import H2T.Lemmas.FitsBlock
 import H2T.Lemmas.SubCompose
+import H2T.Lemmas.ListCompose
 
 /-! # C07 — lists, quotes, headings prefix every line; ordered items count from start
 
@@ -10,7 +11,10 @@ width is the parent's minus the prefix, and the result is appended with `first` 
 `start, start+1, …` (saturating at the ends of `i64`); markers are padded to the list's common width;
 continuation indentation has that same width; **a block quote, a heading and a `dd` are their content rendered at the
 narrower width with the prefix in front of every line** (`quote_is_prefixed_content`, `heading_is_prefixed_content`,
-`dd_is_indented_content`, footnotes off), and nested quotes stack their prefixes (`nested_quotes_stack`).  That the body's run equals the content's own rendering is
+`dd_is_indented_content`, footnotes off), nested quotes stack their prefixes (`nested_quotes_stack`), and **a list is its
+items** (`ul_is_its_items`, `ol_is_its_items`): each item rendered on its own at the narrower width, the bullet or the padded
+number `start + i` in front of its first line, blank indentation of the same width in front of its later lines, one item
+after the other.  That the body's run equals the content's own rendering is
 definitional in `runOp (.sub …)` (the body starts from an empty renderer that shares only the annotation
 stack); the monotonicity of decimal marker widths between the first and the last item is checked by the
 harness over all starts in −100..100 ∪ {989..999}. -/
@@ -148,6 +152,33 @@ theorem nested_quotes_stack (cfg : Cfg) (d : Deco) (w w1 w2 : Nat) (kids : List 
       rw [compile_container]; simp [compileList]
     rw [this]
   rw [this, quote_is_prefixed_content cfg d w1 w2 kids hfn hw1 h2 hw2]
+
+/-- **an unordered list is its items**: item `i` rendered on its own at the width `width_minus` grants, the bullet in front
+    of its first line and blank indentation of the bullet's display width in front of its later lines, items concatenated
+    in order (`itemLines`) -/
+theorem ul_is_its_items (cfg : Cfg) (d : Deco) (w w' : Nat) (kids : List RNode) (hfn : cfg.footnotes = false) (hw : w ≠ 0)
+    (hw' : SubR.widthMinus { width := w } cfg (dispW d.ulPrefix)
+      ((sizeOf d cfg.minWrap (.box {} .ul kids)).minW - dispW d.ulPrefix) = .ok w') (hw'0 : w' ≠ 0) :
+    renderTree cfg d w (.box {} .ul kids) =
+      itemLines cfg d w' (fun _ => d.ulPrefix) (List.replicate (dispW d.ulPrefix) spaceCh) 0 kids :=
+  renderTree_items cfg d w w' _ _ _ _ _ kids (by simp [compile, styleOpen_dflt, styleClose_dflt]) hfn hw hw' hw'0
+
+/-- **an ordered list is its items**: item `i` carries the number `start + i` (saturating), its marker padded to the
+    common width of the list's first and last markers; later lines are indented by that width -/
+theorem ol_is_its_items (cfg : Cfg) (d : Deco) (w w' : Nat) (start : Int) (kids : List RNode) (hfn : cfg.footnotes = false) (hw : w ≠ 0)
+    (hw' : SubR.widthMinus { width := w } cfg (olPrefixSize d start kids.length)
+      ((sizeOf d cfg.minWrap (.box {} (.ol start) kids)).minW - (sizeOf d cfg.minWrap (.box {} (.ol start) kids)).prefixSize) = .ok w')
+    (hw'0 : w' ≠ 0) :
+    renderTree cfg d w (.box {} (.ol start) kids) =
+      itemLines cfg d w' (fun i => padTo (d.olPrefix (olItemNumber start i)) (olPrefixSize d start kids.length))
+        (List.replicate (olPrefixSize d start kids.length) spaceCh) 0 kids :=
+  renderTree_items cfg d w w' _ _ _ _ _ kids (by simp [compile, styleOpen_dflt, styleClose_dflt]) hfn hw hw' hw'0
+
+/-- what `itemLines` says, unfolded once -/
+theorem itemLines_cons (cfg : Cfg) (d : Deco) (w' : Nat) (first : Nat → List Ch) (rest : List Ch) (i : Nat) (k : RNode) (ks : List RNode) :
+    itemLines cfg d w' first rest i (k :: ks) =
+      andThen (renderTree cfg d w' k) fun ls =>
+      andThen (itemLines cfg d w' first rest (i + 1) ks) fun more => .ok (zipPrefix [] (first i) rest ls ++ more) := rfl
 
 /-! non-vacuity: a quote at width 10 with the plain decorator -/
 example : (SubR.widthMinus { width := 10 } {} (dispW Deco.plain.quotePrefix)
